@@ -73,6 +73,8 @@ Fixpoint vdedup (l : list absval) : list absval :=
   | x :: t => if vmem x t then vdedup t else x :: vdedup t
   end.
 Definition vsubset (a b : list absval) : bool := forallb (fun x => vmem x b) a.
+(* equality of value sets *)
+Definition list_eqb_abs (a b : list absval) : bool := vsubset a b && vsubset b a.
 Definition vflat (f : absval -> list absval) (l : list absval) : list absval :=
   fold_right (fun x acc => vunion (f x) acc) [] l.
 
